@@ -630,3 +630,55 @@ def hostbits_part_c04(ck, tier):
         traces.append(ev)
         meta.append({"cfg": cfg.describe(), "via": "anonymize_files", "lines": [t if t else ("", "") for t in texts], "head": 0})
     judge(ck, "C04", traces, meta, "anonymize_files-default-prefixes")
+
+
+# ---------------------------------------------------------------------------
+# C01 at the command line: common-prefix lengths over option combinations and spellings
+# ---------------------------------------------------------------------------
+def cli_part_c01(ck, tier):
+    """Pairs of addresses at many common-prefix lengths, written in several spellings (plain, zero-padded, IPv6 hex,
+    IPv6 with a dotted tail), through the real command line under option combinations; TextTrace requires every
+    <token, replacement> pair to be consistent with every other one (that IS common-prefix preservation)."""
+    traces, meta = [], []
+    combos = [
+        ([], None, None, 8),
+        (["--preserve-private-addresses", "--preserve-addresses", "20.0.0.0/16,11.11.11.11"], list(D.PRIVATE_NETS) + ["20.0.0.0/16", "11.11.11.11"], None, 8),
+        (["--preserve-prefixes", "20.0.0.0/8,11.0.0.0/8", "--preserve-host-bits", "0"], None, ["20.0.0.0/8", "11.0.0.0/8"], 0),
+        (["--preserve-private-addresses", "--preserve-host-bits", "17"], list(D.PRIVATE_NETS), None, 17),
+    ]
+    for vi, (opts, nets, pins, hb) in enumerate(combos[: 4 if tier == "thorough" else 3]):
+        base = tlc.subdir("c01cli_%d" % vi)
+        os.makedirs(base, exist_ok=True)
+        cfg = Cfg("c01-cli-%d" % vi, ps4=hb, ps6=hb, pins=pins, nets=nets)
+        rr = rng("C01", "cli", vi)
+        lines = []
+        for b4 in (0x14000509, 0x0B0B0B1B, rr.getrandbits(32), 0x0A010203):
+            for k in (3, 7, 9, 15, 16, 23, 27, 30):
+                lines.append("a %s b %s" % (D.ipaddress.IPv4Address(b4), D.ipaddress.IPv4Address(b4 ^ (1 << (31 - k)) ^ rr.getrandbits(max(31 - k, 1) - 1 if 31 - k > 1 else 0))))
+        for b6 in ((0x64FF9B << 104) | 0x0A010203, rr.getrandbits(128), (0x20010DB8 << 96) | 0xAC140101):
+            v4tail = str(D.ipaddress.IPv4Address(b6 & 0xFFFFFFFF))
+            hexform = str(D.ipaddress.IPv6Address(b6))
+            head = str(D.ipaddress.IPv6Address(b6 >> 32 << 32)).rstrip(":")
+            dotted = (head + ":" if not head.endswith(":") else head) + v4tail if (b6 >> 32 << 32) else "::" + v4tail
+            try:
+                ok = int(D.ipaddress.IPv6Address(dotted)) == b6
+            except ValueError:
+                ok = False
+            lines.append("p %s q %s" % (hexform, dotted if ok else hexform))
+            for k in (10, 64, 100, 110, 120, 126):
+                lines.append("p %s q %s" % (hexform, D.ipaddress.IPv6Address(b6 ^ (1 << (127 - k)))))
+        src = "\n".join(lines) + "\n"
+        with open(os.path.join(base, "in.cfg"), "w") as fh:
+            fh.write(src)
+        rc, err = run_main(["-a", "-s", cfg.salt, "-i", os.path.join(base, "in.cfg"), "-o", os.path.join(base, "out.cfg")] + opts)
+        ev = [cfg.event(["Structure", "Spelling", "Consistent"])]
+        texts = [None]
+        if rc != 0 or not os.path.isfile(os.path.join(base, "out.cfg")):
+            ev.append({"ev": "exc", "what": "main rc=%s %s" % (rc, err[-300:])})
+            texts.append(("main", "EXC"))
+        else:
+            pair_lines(ev, texts, "in.cfg", src, open(os.path.join(base, "out.cfg")).read())
+        traces.append(ev)
+        meta.append({"cfg": dict(cfg.describe(), cli=opts), "via": "main", "lines": [t if t else ("", "") for t in texts], "head": 0})
+        ck.count(("c01cli", vi))
+    judge(ck, "C01", traces, meta, "command-line")
